@@ -265,6 +265,9 @@ func (c *conn) send(ctx context.Context, msg *kmip.RequestMessage) error {
 func (c *conn) recv(ctx context.Context) (*kmip.ResponseMessage, error) {
 	vp("recv.avail", c)
 	if err := c.checkAvailable(ctx); err != nil {
+		// The request has been sent already: its response may still arrive on this connection, which
+		// therefore must not serve another exchange.
+		_ = c.terminate(io.ErrClosedPipe)
 		return nil, err
 	}
 	vp("recv.select", c)
